@@ -1,6 +1,9 @@
 package ref
 
-import "fmt"
+import (
+	"fmt"
+	"math/big"
+)
 
 // OpKind is the Sidetree operation type.
 type OpKind string
@@ -97,11 +100,25 @@ func InWindow(from, until int64, t uint64, delta uint64) bool {
 	if from == 0 && until == 0 {
 		return true
 	}
-	u := until
-	if u == 0 {
-		u = from + int64(delta)
+	// exact integer arithmetic: none of from + delta, t, until need fit an int64
+	bt := new(big.Int).SetUint64(t)
+	u := big.NewInt(until)
+	if until == 0 {
+		u = new(big.Int).Add(big.NewInt(from), new(big.Int).SetUint64(delta))
 	}
-	return from <= int64(t) && int64(t) <= u
+	return big.NewInt(from).Cmp(bt) <= 0 && bt.Cmp(u) <= 0
+}
+
+// DefaultUntil is the effective expiry and whether it is representable as an int64.
+func DefaultUntil(from, until int64, delta uint64) (int64, bool) {
+	if until != 0 || from == 0 {
+		return until, true
+	}
+	u := new(big.Int).Add(big.NewInt(from), new(big.Int).SetUint64(delta))
+	if !u.IsInt64() {
+		return 0, false
+	}
+	return u.Int64(), true
 }
 
 // Step folds one anchored operation. prev is never modified.
